@@ -409,6 +409,21 @@ func gen(r *rand.Rand, prop, tier string, index int) any {
 	if r.IntN(25) == 0 {
 		s.ResetAtWrite = 1 + r.IntN(30)
 	}
+	if r.IntN(30) == 0 {
+		// the peer answers its own open: one valid CHANNEL_OPEN which the
+		// application leaves undecided, then an open confirmation or failure
+		// addressed to the id that channel got (0: nothing else exists)
+		s.PeerOps, s.Locals, s.Probes, s.Park, s.ResetAtWrite = nil, nil, nil, Park{}, 0
+		s.Accept = []int{3}
+		s.PeerOps = append(s.PeerOps, genPeerOp(r, "open"))
+		for i, n := 0, 1+r.IntN(2); i < n; i++ {
+			s.PeerOps = append(s.PeerOps, PeerOp{Kind: []string{"confirm", "fail"}[r.IntN(2)], Tgt: "guess", Ref: 0, Win: windows[r.IntN(len(windows))], MaxPkt: maxPkts[r.IntN(len(maxPkts))]})
+		}
+		if r.IntN(2) == 0 {
+			s.PeerOps = append(s.PeerOps, genPeerOp(r, "ping"))
+		}
+		return s
+	}
 	if r.IntN(25) == 0 {
 		// nothing is ever allocated: the peer's only opens are refused by the
 		// mux itself (invalid maximum packet size), the local side opens
@@ -589,6 +604,12 @@ type run struct {
 	// noLocalOpens: the scenario has no local OpenChannel call at all
 	validOpens   int
 	noLocalOpens bool
+	// late Accept decisions are released at the first idle point; inboundResp
+	// counts open responses the peer addressed to an inbound channel that is
+	// certainly allocated and undecided (id 0 of an otherwise unused connection)
+	lateGo      bool
+	lateKey     struct{ _ int }
+	inboundResp int
 
 	// what the peer has sent
 	gReplies    map[string]bool    // "payload|flag" of every global reply pushed
@@ -903,6 +924,17 @@ func (r *run) target(op PeerOp) (id uint32, ci *chanInfo, class string) {
 	return unknownIDs[op.Ref%len(unknownIDs)], nil, "unknown"
 }
 
+// noteInboundResp: an open response addressed to the first (and only)
+// channel the peer itself opened, while the application has not decided yet
+// and nothing else was ever allocated: that id is 0 and it names an inbound
+// channel, for which an open response is never valid.
+func (r *run) noteInboundResp(class string, id uint32) {
+	if class == "guess" && id == 0 && r.noLocalOpens && r.validOpens == 1 && len(r.popens) == 1 && !r.lateGo && len(r.scn.Accept) > 0 && r.scn.Accept[0] == 3 && r.alive() {
+		r.inboundResp++
+		rt.Fault("peer-open-response-for-inbound-channel")
+	}
+}
+
 func (r *run) noteCReply(id uint32, ok bool) {
 	e := r.cReplies[id]
 	if e == nil {
@@ -1092,11 +1124,13 @@ func (r *run) peerOp(i int, op PeerOp) {
 		my := uint32(400 + i)
 		rt.Event("peer op%d: unsolicited OPEN_CONFIRMATION (sender id %d) to %s id %d", i, my, class, id)
 		unknownFault()
+		r.noteInboundResp(class, id)
 		r.pushOpenResp(id, ssh.Marshal(&msgOpenConfirm{Recipient: id, SenderID: my, Window: op.Win, MaxPacket: op.MaxPkt}), my, "", fmt.Sprintf("peer op%d, unsolicited OPEN_CONFIRMATION to id %d", i, id))
 	case "fail":
 		msg := fmt.Sprintf("fu:%d", i)
 		rt.Event("peer op%d: unsolicited OPEN_FAILURE to %s id %d", i, class, id)
 		unknownFault()
+		r.noteInboundResp(class, id)
 		r.pushOpenResp(id, ssh.Marshal(&msgOpenFailure{Recipient: id, Reason: 1, Message: msg, Language: "en"}), 0, msg, fmt.Sprintf("peer op%d, unsolicited OPEN_FAILURE to id %d", i, id))
 	case "upkt", "kpkt":
 		rt.Event("peer op%d: packet type %d to %s id %d", i, op.Type, class, id)
@@ -1506,6 +1540,21 @@ func (r *run) newChannels(chans <-chan ssh.NewChannel) {
 		}
 		ci := r.popens[k]
 		switch r.scn.Accept[k%len(r.scn.Accept)] {
+		case 3:
+			// the application takes its time: it decides only once the
+			// system has become idle for the first time
+			go func() {
+				lt := r.newTask(fmt.Sprintf("late decision on p:%d", k))
+				lt.doing("late-accept", "waiting before Accept")
+				for !r.lateGo {
+					rt.Park(&r.lateKey, "late-accept")
+				}
+				if ch, reqs, err := nc.Accept(); err == nil {
+					rt.Event("local accepted p:%d late (local id %d)", k, ci.localID)
+					r.register(ci, ch, reqs)
+				}
+				lt.done = true
+			}()
 		case 0:
 			ch, reqs, err := nc.Accept()
 			if err != nil {
@@ -1849,6 +1898,10 @@ func (r *run) idleChecks() bool {
 			return false
 		}
 	}
+	if r.inboundResp > 0 {
+		r.violate("open-response-for-inbound-channel-accepted", "the peer answered its own CHANNEL_OPEN: it sent %d open confirmation/failure messages addressed to the channel it had opened itself (undecided by the application), and the connection is still up after the mux consumed them", r.inboundResp)
+		return false
+	}
 	if r.dupPushed > 0 {
 		r.violate("duplicate-open-response-accepted", "the peer sent a second open response for an already confirmed channel (%s) and the connection is still up after the mux consumed it (system idle, nothing unread): the duplicate was not rejected", r.dupDesc)
 		return false
@@ -1880,6 +1933,12 @@ func (r *run) onIdle() bool {
 		case phChaos:
 			if !r.idleChecks() {
 				return false
+			}
+			if !r.lateGo {
+				// late decisions are taken now; judged again at the next idle point
+				r.lateGo = true
+				rt.Wake(&r.lateKey)
+				return true
 			}
 			if !r.alive() {
 				r.endedEarly = true
